@@ -313,6 +313,13 @@ def end_to_end(case):
             e0 = tool_env({'CC': os.path.join(BIN, 'stubcc'),
                            'CXX': os.path.join(BIN, 'stubcxx')})
         e0.update(case['e0'])
+        if case.get('othermake'):
+            # the build tool named at configure time is not GNU Make (no
+            # version detected): still the backend every later run restores
+            w = os.path.join(tools, 'bmake')
+            open(w, 'w').write('#!/bin/sh\necho "bmake 20200101"\n')
+            os.chmod(w, 0o755)
+            e0['MAKE'] = w
         rc, out = run(['/venv/bin/bfg9000', 'configure', bld,
                        '--no-resolve-packages', '--backend=make'] + args,
                       cwd=src, env=e0)
@@ -415,6 +422,7 @@ def e2e_cases(ck, n):
         cases.append({'toolchain': tc, 'e0': e0, 'later': later,
                       'tcraw': "target_platform('linux', 'i686')\n"
                       if i % 3 == 0 else '',
+                      'othermake': i % 5 == 2,
                       'relcc': i % 2 == 0,
                       'args': rnd.choice([[], ['--prefix', '/opt/my app'],
                                           ['--disable-shared',
